@@ -70,6 +70,7 @@ type Frame struct {
 	contract *Contract
 	entry    *PState
 	names    map[string][]ssa.Value
+	dropped  map[string]bool // invariant conjuncts that cannot be evaluated against this body
 	loops    map[*ssa.BasicBlock]*loopInfo
 	loopOrd  map[*ssa.BasicBlock]int
 	iterOrd  int
